@@ -18,6 +18,7 @@ package dns
 //@   callsite "Write" hashed: (ref(arg0) == ref(buf) && ((sliceoff(arg0) == sliceoff(buf) + sigstart && len(arg0) == offset - sigstart) || (sliceoff(arg0) == sliceoff(buf) && len(arg0) == 10) || (sliceoff(arg0) == sliceoff(buf) + 12 && len(arg0) == bodyend - 12))) || (ref(arg0) != ref(buf) && len(arg0) == 2)
 //@   assert at "return ErrTime" outside: now < incept || now > expire
 //@   exit signer: ret0 == nil ==> callres("equal")
+//@   exit samename: ret0 == nil ==> len(signername) == len(k.Hdr.Name) && (forall j in 0..len(signername) :: lower(signername[j]) == lower(k.Hdr.Name[j]))
 //@   exit spans: ret0 == nil ==> 12 <= bodyend && bodyend + 11 <= sigstart && sigstart + 18 <= sigend && sigend <= len(buf)
 //@   assert at "bodyend := offset" skipped: uint16(anc + auc + adc) == 0 || i == uint16(anc + auc + adc)
 //@   loop 1 invariant 12 <= offset && buflen == len(buf)
@@ -60,8 +61,11 @@ package dns
 //@   assert at "if &buf[0] != &mbuf[0] {" inplace: ref(buf) == ref(mbuf) && sliceoff(buf) == sliceoff(mbuf)
 
 // the signing helpers build their results in fresh memory and leave every caller buffer alone
-//@ func intToBytes [C18 C10]
+//@ func intToBytes [C18 C10 C17]
 //@   opt no-safety
+//@   exit pad: len(buf) < length ==> len(ret0) == length
+//@   exit asis: len(buf) >= length ==> same(ret0, buf)
+//@   ensures atleast: len(ret0) >= length
 //@   fresh
 //@   pure
 //@ func sign [C18 C10]
